@@ -51,6 +51,14 @@ check("C06", "exploration",
       "Relational oracle over executions of the real reader plus M-reader; corrupted containers that still parse are unjudged.",
       "recorded histories of three reader runs compared relationally + fault injection at row boundaries", "DESIGN.md 5/C06")
 
+check("C13", "fault_enumeration",
+      "fixed_rows is executed on every string up to length 6 (quick) / 9 (thorough) over {a,b,CR,LF} x all 39 width lists x the "
+      "five delimiter settings and on single-character deletions / insertions / replacements at every offset of longer files "
+      "(streams and real files); each execution is judged for losslessness (input rebuilt from the rows with permitted "
+      "delimiters), item widths, error type, and acceptance of well-formed inputs. Exhaustive over the bounded space.",
+      "Oracle is a reconstruction search independent of cutplace; acceptance of records that themselves contain CR/LF is unjudged.",
+      "exhaustive execution of the real reader under a reconstruction oracle + single-character fault injection", "DESIGN.md 5/C13")
+
 NOT_YET = "check not built yet in this session; see DESIGN.md section 5 for the planned monitor"
 
 def main():
